@@ -5,12 +5,17 @@ package main
 // single-byte substitution / truncation; TLC judges them with Crc.tla (CrcTrace.tla).
 
 import (
+	"bufio"
 	"bytes"
+	"io"
+	"testing/iotest"
 	"encoding/binary"
 	"encoding/json"
 	"hash"
 	"math/rand"
+	"runtime/debug"
 	"strings"
+	"time"
 
 	extcrc "github.com/cupcake/rdb/crc64"
 
@@ -33,19 +38,36 @@ type crcIn struct {
 	Artefacts int    `json:"artefacts"`
 	AllSubst  int    `json:"all_subst"` // number of artefacts on which all 255 substitutions are tried at every position
 	Trace     string `json:"trace"`
+	BudgetS   int    `json:"budget_s"`
 }
 
 // loadFile runs the real loader over a whole RDB; accepted = header, every entry and the footer verify.
 var lastLoadStage string
+var loadVariant int
+var loadRnd = rand.New(rand.NewSource(99))
 
 func loadFile(b []byte) (accepted bool, entries []*rdb.BinEntry) {
 	lastLoadStage = "parse"
+	// corrupted lengths make the parser allocate (and never touch) gigabyte slices; releasing each one
+	// costs ~10 ms of page-table work, so this driver runs with the collector off and a bounded
+	// number of artefacts per process (the orchestrator starts several processes)
 	defer func() {
 		if r := recover(); r != nil {
 			accepted = false
 		}
 	}()
-	l := rdb.NewLoader(bytes.NewReader(b))
+	// the way the bytes arrive must not matter: whole buffer, tiny bufio, short random reads, one byte at a time
+	var src io.Reader = bytes.NewReader(b)
+	loadVariant++
+	switch loadVariant % 4 {
+	case 1:
+		src = bufio.NewReaderSize(bytes.NewReader(b), 16)
+	case 2:
+		src = &fragReader{b: append([]byte{}, b...), rnd: loadRnd, max: 7}
+	case 3:
+		src = iotest.OneByteReader(bytes.NewReader(b))
+	}
+	l := rdb.NewLoader(src)
 	if err := l.Header(); err != nil {
 		return false, nil
 	}
@@ -107,6 +129,7 @@ func crcRun(in []byte) (interface{}, error) {
 	}
 	defer tr.Close()
 	rnd := rand.New(rand.NewSource(cfg.Seed))
+	defer debug.SetGCPercent(debug.SetGCPercent(-1))
 	impls := map[string]func() hash.Hash64{
 		"pkg/rdb/digest":                func() hash.Hash64 { return digest.New() },
 		"github.com/cupcake/rdb/crc64":   func() hash.Hash64 { return extcrc.New() },
@@ -154,6 +177,7 @@ func crcRun(in []byte) (interface{}, error) {
 	}
 	// ---- artefacts and fault enumeration
 	nfault := 0
+	deadline := time.Now().Add(time.Duration(cfg.BudgetS) * time.Second)
 	fault := func(verifier, class string, accepted bool, detail map[string]interface{}) {
 		ev := tracer.Ev{"e": "fault", "verifier": verifier, "class": class, "accepted": accepted}
 		for k, v := range detail {
@@ -212,6 +236,13 @@ func crcRun(in []byte) (interface{}, error) {
 			}
 			fault(verifier, "trunc", accepts(p[:n]), map[string]interface{}{"art": art, "len": n})
 		}
+		{
+			z := append([]byte{}, p...)
+			for i := L - 8; i < L; i++ {
+				z[i] = 0
+			}
+			fault(verifier, "crc_zeroed", accepts(z), map[string]interface{}{"art": art})
+		}
 		// a version above the supported one, with a VALID checksum
 		for _, v := range []uint16{10, 11, 255, 256 + 6, 512 + 9, 0x0906, 65535} {
 			if verifier == "verifyDump" && v == 0 {
@@ -269,6 +300,15 @@ func crcRun(in []byte) (interface{}, error) {
 			continue
 		}
 		fault("footer", "none", ok, map[string]interface{}{"art": a, "len": len(file)})
+		intactOK := true
+		for rep := 0; rep < 4; rep++ { // the intact file through every reader variant
+			acc, _ := loadFile(file)
+			fault("footer", "none", acc, map[string]interface{}{"art": a, "len": len(file), "variant": loadVariant % 4})
+			intactOK = intactOK && acc
+		}
+		if !intactOK || time.Now().After(deadline) {
+			continue // the verifier already failed on the intact artefact (or time is up): no point in corrupting it
+		}
 		for pos := 0; pos < len(file); pos++ {
 			class := "data"
 			if pos >= len(file)-8 {
@@ -280,6 +320,17 @@ func crcRun(in []byte) (interface{}, error) {
 				acc, _ := loadFile(m)
 				fault("footer", class, acc, map[string]interface{}{"art": a, "pos": pos, "to": int(c)})
 			}
+		}
+		{
+			z := append([]byte{}, file...)
+			for i := len(z) - 8; i < len(z); i++ {
+				z[i] = 0
+			}
+			acc, _ := loadFile(z)
+			fault("footer", "crc_zeroed", acc, map[string]interface{}{"art": a})
+			z[12+rnd.Intn(len(z)-8-12)] ^= 0x20
+			acc, _ = loadFile(z)
+			fault("footer", "crc_zeroed", acc, map[string]interface{}{"art": a, "with_data_change": true})
 		}
 		for n := 0; n < len(file); n++ {
 			acc, _ := loadFile(file[:n])
